@@ -195,6 +195,7 @@ package keeper
 
 // ---- withdrawals: pay out the recorded balance, zero it, persist the record ----
 //@ func (*keeper).paymentWithdraw
+//@   requires [insync] KVhas[k.skey][pKey(obj.AccountID, obj.PaymentID)] && decode(types.Payment, KVval[k.skey][pKey(obj.AccountID, obj.PaymentID)]).Balance == obj.Balance
 //@   ensures [conserve] old(KVhas)[k.skey][pKey(obj.AccountID, obj.PaymentID)]
 //@                && decode(types.Payment, old(KVval)[k.skey][pKey(obj.AccountID, obj.PaymentID)]).Balance == old(obj.Balance) ==>
 //@                (forall d: str :: Mod["escrow"][d] - G[k.skey][d] == old(Mod)["escrow"][d] - old(G)[k.skey][d])
@@ -209,7 +210,10 @@ package keeper
 //@                - storeWeight(pKey(obj.AccountID, obj.PaymentID), old(KVhas)[k.skey][pKey(obj.AccountID, obj.PaymentID)], old(KVval)[k.skey][pKey(obj.AccountID, obj.PaymentID)], d))
 //@   ensures [gframe] forall sk: iface {KVval[sk]} :: sk != k.skey ==> G[sk] == old(G)[sk]
 
+// the object handed to accountWithdraw carries the balance the store records for the account: what is paid out is what
+// the account was recorded to hold (a stale copy - e.g. one read before settlement - would pay out too much)
 //@ func (*keeper).accountWithdraw
+//@   requires [insync] KVhas[k.skey][aKey(obj.ID)] && decode(types.Account, KVval[k.skey][aKey(obj.ID)]).Balance == obj.Balance
 //@   ensures [conserve] old(KVhas)[k.skey][aKey(obj.ID)]
 //@                && decode(types.Account, old(KVval)[k.skey][aKey(obj.ID)]).Balance == old(obj.Balance) ==>
 //@                (forall d: str :: Mod["escrow"][d] - G[k.skey][d] == old(Mod)["escrow"][d] - old(G)[k.skey][d])
@@ -570,6 +574,8 @@ package keeper
 // payouts of a recorded balance to the record's owner (the two withdraw functions), and every such step keeps
 // module balance minus recorded total (ghost G, maintained at every store write) unchanged; settlement moves
 // value between records only: each helper debits the account by exactly what it credits to payees.
+// C01: what a close or a withdrawal pays out is the recorded balance (the callers hand over in-sync objects)
+//@ property C01 := (*keeper).AccountClose#requires@*, (*keeper).PaymentWithdraw#requires@*, (*keeper).PaymentClose#requires@*
 //@ property C01 := (*keeper).AccountCreate#*, (*keeper).AccountDeposit#*, (*keeper).paymentWithdraw#*, (*keeper).accountWithdraw#*,
 //@                 (*keeper).saveAccount#*, (*keeper).savePayment#*, lemma:totalFullIsProduct, lemma:sumRateFrame,
 //@                 accountSettleFullblocks#*, accountSettleDistributeWeighted#*, accountSettleDistributeEvenly#*
